@@ -54,8 +54,8 @@ Lemma ostep_enter s x r : hs s = mkS x PEnter :: r -> inst (reg s) = Some O ->
 Proof. intros H Hi. unfold ostep. simpl. rewrite H. simpl. rewrite Hi. reflexivity. Qed.
 
 Lemma ostep_run_keep s x r : hs s = mkS x PRun :: r ->
-  length (stack (step true 0 (core s))) = length (stack (core s)) ->
-  ostep 0 s = mkO (step true 0 (core s)) (cb_dsp (core s) (reg s) (dsp s)) (hs s) (acc s) (drp s) (cb_reg (core s) (reg s)).
+  length (stack (cstep (core s) (reg s))) = length (stack (core s)) ->
+  ostep 0 s = mkO (cstep (core s) (reg s)) (cb_dsp (core s) (reg s) (dsp s)) (hs s) (acc s) (drp s) (cb_reg (core s) (reg s)).
 Proof. intros H Hl. unfold ostep. simpl. rewrite H. simpl. rewrite Hl, Nat.ltb_irrefl. reflexivity. Qed.
 
 Theorem os_arrival pre s d : oreach pre s -> is_reg d = true -> pre d = false ->
@@ -113,7 +113,7 @@ Theorem os_exactly_once pre s : oreach pre s ->
              = (if (i <? length (arrs (core s)))%nat then 1 else 0)) /\
   NoDup (map fst (fates (core s))) /\
   (forall i, ~ In (i, FLost) (fates (core s))) /\
-  (forall i, In (i, FStopLost) (fates (core s)) -> 0 < stops (core s)) /\
+  (forall i, In (i, FStopLost) (fates (core s)) -> 0 < stops (core s) + cbt (core s)) /\
   (forall i x, In (i, FDelivered x) (fates (core s)) -> nth_error (arrs (core s)) i = Some x).
 Proof.
   intro Hr. destruct (oreach_inv _ _ Hr) as [[o [a [Hb Hc]]] _ _ _ Ha].
@@ -132,7 +132,7 @@ Theorem os_immediate s d : d <> 0 -> is_sig d = true -> dsp s d = DHandler -> in
   fates (core s4) = (length (arrs (core s)), FDelivered d) :: fates (core s) /\
   arrs (core s4) = arrs (core s) ++ [d] /\
   stack (core s4) = mkH d (length (arrs (core s))) false HCbExit 0 :: stack (core s) /\
-  blocked (core s4) = 1 /\
+  blocked (core s4) = (if hd false (tl (rearm (reg s))) then 2 else 1) /\   (* 2: the entered callback has called blockSignals() itself *)
   hs s4 = mkS d PRun :: hs s /\
   dsp s4 d = (if (d =? alarm_sig) && hd false (rearm (reg s)) then DHandler else DIgnore) /\
   drp s4 = drp s /\ acc s4 = acc s ++ [d].
@@ -146,22 +146,26 @@ Proof.
   set (s2 := mkO (arrive d c) (upd (dsp s) d DIgnore) (mkS d PRun :: hs s) (acc s ++ [d]) (drp s) (reg s)).
   assert (E2 : ostep 0 s1 = s2) by (apply (ostep_enter s1 d (hs s)); [reflexivity|exact Hin]).
   rewrite E2. clear E2.
-  set (c3 := mk (0 + 1) (pending c) (pend_id c) (mpc_ c) (ops c)
+  set (c3 := mk (cbt c) (0 + 1) (pending c) (pend_id c) (mpc_ c) (ops c)
                 (mkH d (length (arrs c)) false HCbEnter 0 :: stack c) (answers c) (arrs c ++ [d]) (depth c) (stops c) (fates c)).
   assert (E3 : step true 0 (arrive d c) = c3).
   { unfold step, arrive, hstep. simpl. rewrite Hb. reflexivity. }
   set (r3 := cb_reg (arrive d c) (reg s)).
   set (s3 := mkO c3 (upd (dsp s) d DIgnore) (mkS d PRun :: hs s) (acc s ++ [d]) (drp s) r3).
   assert (E4 : ostep 0 s2 = s3).
-  { rewrite (ostep_run_keep s2 d (hs s)); [|reflexivity|cbn [core s2]; rewrite E3; reflexivity].
-    cbn [core s2 dsp reg]. rewrite E3. reflexivity. }
+  { assert (C2 : cstep (arrive d c) (reg s) = c3).
+    { unfold cstep. replace (cbblock_now (arrive d c) (reg s)) with false by reflexivity. exact E3. }
+    rewrite (ostep_run_keep s2 d (hs s)); [|reflexivity|cbn [core s2 reg]; rewrite C2; reflexivity].
+    cbn [core s2 dsp reg]. rewrite C2. reflexivity. }
   rewrite E4. clear E4.
-  rewrite (ostep_run_keep s3 d (hs s)); [|reflexivity|reflexivity].
-  cbn [core dsp hs acc drp s3]. cbn. repeat split; auto.
-  unfold cb_dsp, rearm_now, r3, cb_reg. cbn. unfold upd.
-  destruct (hd false (rearm (reg s))); cbn.
-  - destruct (Z.eqb_spec d alarm_sig) as [->|Hne]; cbn; [reflexivity|]. rewrite Z.eqb_refl. reflexivity.
-  - rewrite andb_false_r. rewrite Z.eqb_refl. reflexivity.
+  assert (C3 : cbblock_now c3 r3 = hd false (tl (rearm (reg s)))) by reflexivity.
+  rewrite (ostep_run_keep s3 d (hs s)); [|reflexivity|unfold cstep; destruct (cbblock_now (core s3) (reg s3)); rewrite ?stack_cbb; reflexivity].
+  unfold cstep. cbn [core reg s3]. rewrite C3.
+  destruct (hd false (tl (rearm (reg s)))); cbn [core dsp hs acc drp s3]; cbn; (repeat split; auto);
+    unfold cb_dsp, rearm_now, r3, cb_reg; cbn; unfold upd;
+    (destruct (hd false (rearm (reg s))); cbn;
+     [destruct (Z.eqb_spec d alarm_sig) as [->|Hne]; cbn; [reflexivity|]; rewrite Z.eqb_refl; reflexivity
+     |rewrite andb_false_r; rewrite Z.eqb_refl; reflexivity]).
 Qed.
 
 (* "later signals are still handled": whenever no handler for d is in progress (and the environment did not have d ignored),
@@ -189,7 +193,7 @@ Proof.
       * exists [mkS (s_sig e) PRun]. split; [reflexivity|simpl; lia].
       * exists []. split; [reflexivity|simpl; lia].
       * exists []. split; [reflexivity|simpl; lia].
-    + destruct (length (stack (step true 0 (core s))) <? length (stack (core s)))%nat.
+    + destruct (length (stack (cstep (core s) (reg s))) <? length (stack (core s)))%nat.
       * exists [mkS (s_sig e) PExit]. split; [reflexivity|simpl; lia].
       * exists [e]. split; [reflexivity|simpl; lia].
     + exists []. split; [reflexivity|simpl; lia].
@@ -238,6 +242,16 @@ Proof.
   - pose proof (step_decreases true c H). lia.
 Qed.
 
+Lemma measure_cbb c : measure (cb_block c) = measure c.
+Proof.
+  unfold cb_block. destruct (stack c) as [|f r] eqn:E; [reflexivity|]. destruct (h_pc f); try reflexivity.
+  unfold measure. cbn [stack mpc_ ops]. rewrite E. reflexivity.
+Qed.
+Lemma cstep_decreases c r : code c <> 0 -> (measure (cstep c r) < measure c)%nat.
+Proof.
+  intro H. unfold cstep. destruct (cbblock_now c r); rewrite ?measure_cbb; apply step_decreases; exact H.
+Qed.
+
 Lemma objstep_flow r r' : objstep r = Some r' -> (length (oflow r') < length (oflow r))%nat.
 Proof.
   unfold objstep. destruct (oflow r) as [|[| | | | | |] f]; try discriminate; intro H; inversion H; subst; clear H; simpl; try lia.
@@ -259,11 +273,11 @@ Proof.
         destruct (objstep_none _ Ho) as [Hf|[f Hf]]; rewrite Hf in *; cbn [tl length].
         -- pose proof (step_decreases true (core s) H). lia.
         -- lia.
-    + cbn [core hs whs reg cb_reg oflow]. pose proof (step_decreases true (core s) H). lia.
+    + cbn [core hs whs reg cb_reg oflow]. pose proof (cstep_decreases (core s) (reg s) H). lia.
   - destruct (s_ph e) eqn:Hp; cbn [core hs whs wph s_ph]; rewrite ?Hp; cbn [wph].
     + destruct (inst (reg s)) as [[|?]|]; cbn [core hs whs wph s_ph reg set_fault oflow]; [rewrite arrive_measure'|..]; lia.
-    + pose proof (step_decreases true (core s) H).
-      destruct (length (stack (step true 0 (core s))) <? length (stack (core s)))%nat; cbn [whs wph s_ph reg cb_reg oflow]; rewrite ?Hp; cbn [wph]; lia.
+    + pose proof (cstep_decreases (core s) (reg s) H).
+      destruct (length (stack (cstep (core s) (reg s))) <? length (stack (core s)))%nat; cbn [whs wph s_ph reg cb_reg oflow]; rewrite ?Hp; cbn [wph]; lia.
     + cbn [reg]. lia.
 Qed.
 
@@ -397,7 +411,7 @@ Proof. split; reflexivity. Qed.
 Theorem os_rearm_step s :
   match hs s with [] => True | e :: _ => s_ph e = PRun end ->
   cb_enter (core s) = true -> hd false (rearm (reg s)) = true ->
-  dsp (ostep 0 s) alarm_sig = DHandler /\ alarm_set (reg (ostep 0 s)) = true /\ core (ostep 0 s) = step true 0 (core s).
+  dsp (ostep 0 s) alarm_sig = DHandler /\ alarm_set (reg (ostep 0 s)) = true /\ core (ostep 0 s) = cstep (core s) (reg s).
 Proof.
   intros Hh Hc Hr.
   assert (Hat : at_op (core s) = false).
